@@ -133,8 +133,8 @@ type Cluster struct {
 	silentNodes    map[int]bool
 	curArr         int
 	mgmtMode       string
-	zombieNotFound bool      // see handle(): reads of crashed members are answered 'not found'
-	cfgSubs        []*cfgSub // open streaming-config responses (http.go)
+	zombieNotFound bool       // see handle(): reads of crashed members are answered 'not found'
+	cfgSubs        []*cfgSub  // open streaming-config responses (http.go)
 	pendingEnds    []*DStream // streams closed by the client whose stream-end(closed) has not been sent yet
 	mgmtHeld       int
 	mgmtRelease    chan struct{}
